@@ -34,7 +34,7 @@ type Program struct {
 // packages whose init functions are executed for real (others are skipped; see DESIGN §2.4)
 var initAllow = map[string]bool{
 	"unicode": true, "unicode/utf8": true, "strconv": true, "strings": true, "bytes": true, "io": true, "bufio": true,
-	"math": true, "sort": true, "context": true, "io/fs": true, "errors": false, "math/bits": true,
+	"math": true, "sort": true, "context": true, "io/fs": true, "internal/oserror": true, "errors": false, "math/bits": true,
 	"github.com/ichiban/prolog/engine": true, "github.com/ichiban/prolog": true,
 }
 
